@@ -675,6 +675,11 @@ class _Reporter(object):
                             break
                     if nxt is not None:
                         break
+            if nxt is None:                             # rename b -> a throughout
+                cand = tuple((op[0], "a") + op[2:] if (op[0] in _NAME_OPS and op[1] == "b") else op
+                             for op in cur)
+                if cand != cur and all(op in self.index for op in cand) and self._fails(cand):
+                    nxt = cand
             if nxt is None:                             # order neighbours by alphabet position
                 for i in range(len(cur) - 1):
                     a, b = self.index.get(cur[i]), self.index.get(cur[i + 1])
@@ -1212,7 +1217,7 @@ def _junit_case(case):
 
 
 def run_junit(tier, rng):
-    for tree in (["basic"] if tier == "quick" else sorted(_trees())):
+    for tree in (["basic"] if tier == "quick" else ["basic", "rule"]):
         _, plan = _run_case(_mk_case(tree))
         firsts = {}
         for cid in sorted(plan.owner):
@@ -1334,6 +1339,8 @@ def _exec_cases(tier):
         [{"outcome": "pass", "table": [["x"], ["1"], ["2"]]}],
         [{"outcome": "pass", "text": "sub text"}, {"outcome": "pass", "table": [["x"], ["1"]]}],
         [{"outcome": "pass", "text": "sub text"}, {"outcome": "pass"}],
+    ]
+    failing = [
         [{"outcome": "fail", "text": "sub text"}],
         [{"outcome": "pass", "table": [["x"], ["1"]]}, {"outcome": "error"}],
     ]
@@ -1343,6 +1350,10 @@ def _exec_cases(tier):
                 for nested in (False, True):
                     yield {"kind": "step", "caller_text": t, "caller_table": tb, "sub": sub,
                            "nested": nested}
+    # one defect would fail the whole cross product: failing substeps only for one caller
+    for sub in failing:
+        yield {"kind": "step", "caller_text": texts[1], "caller_table": tables[1], "sub": sub,
+               "nested": False}
     yield {"kind": "before_all"}
 
 
@@ -1444,16 +1455,17 @@ CHECKS = [
         bound={
             "quick": "feature set 'basic' with --junit: nothing raising, and the first plain cleanup of each "
                      "layer (testrun/feature/scenario) raising",
-            "thorough": "all 4 feature sets (incl. rule layer)",
+            "thorough": "feature sets 'basic' and 'rule' (adds the rule layer)",
         },
         run=run_junit, replay=replay_junit,
         contract="as run-scopes-and-cleanups, with the JUnit reporter active"),
     BoundedCheck(
         "execute-steps-restores",
         bound={
-            "quick": "caller text in {None, text} x caller table in {None, 2x2} x 7 substep lists (no data, "
-                     "text, table, text+table steps, text then none, failing with text, table then error) x "
-                     "{flat, first substep calls execute_steps itself}; plus execute_steps from before_all",
+            "quick": "caller text in {None, text} x caller table in {None, 2x2} x 5 passing substep lists (no "
+                     "data, text, table, text then table, text then none) x {flat, first substep calls "
+                     "execute_steps itself}; caller with text and table x 2 failing substep lists (failing "
+                     "step with text; table step then raising step); execute_steps from before_all",
             "thorough": "same as quick",
         },
         run=run_exec, replay=replay_exec,
